@@ -1,0 +1,46 @@
+//go:build verif
+
+// Stub of the QUIC transport used only with the `verif` build tag: the real
+// implementation imports lucas-clemente/quic-go, whose qtls dependency panics
+// in init under current Go toolchains and so prevents the root package from
+// linking at all.
+package quic
+
+import (
+	"context"
+	"crypto/tls"
+	"errors"
+	"net"
+)
+
+var errStubbed = errors.New("quic: stubbed out under build tag verif")
+
+// Conn is a QUIC network connection (stub).
+type Conn struct{ net.Conn }
+
+// Listener is a QUIC listener (stub).
+type Listener struct{}
+
+var _ net.Listener = (*Listener)(nil)
+
+// Accept always fails.
+func (l *Listener) Accept() (net.Conn, error) { return nil, errStubbed }
+
+// Close does nothing.
+func (l *Listener) Close() error { return nil }
+
+// Addr returns nil.
+func (l *Listener) Addr() net.Addr { return nil }
+
+// DialAddrContext always fails.
+func DialAddrContext(ctx context.Context, network string, laddr *net.UDPAddr, raddr string, tlsConf *tls.Config, config interface{}) (net.Conn, error) {
+	return nil, errStubbed
+}
+
+// InheritedListen always fails.
+func InheritedListen(network, laddr string, tlsConf *tls.Config, config interface{}) (net.Listener, error) {
+	return nil, errStubbed
+}
+
+// SetInherited does nothing.
+func SetInherited() error { return nil }
